@@ -406,6 +406,14 @@ def cases(rng, tier):
             lin(name, "shape=%s" % (sh,), (lambda m, z, name=name: getattr(m, name)(z)), [iarr(rng, sh)])
     for width in (1, (1, 2), ((1, 0), (0, 2)), ((1, 1),)):
         lin("pad", "width=%s" % (width,), (lambda m, z, width=width: m.pad(z, width, mode="constant")), [iarr(rng, A23)])
+    for cv in (2.5, (1.5, -2.0), ((1.0, 2.0), (3.0, -1.0))):
+        lin("pad", "constant_values=%s" % (cv,), (lambda m, z, cv=cv: m.pad(z, ((1, 2), (2, 1)), mode="constant", constant_values=cv)), [iarr(rng, A23)])
+    lin("pad", "default mode positional width", (lambda m, z: m.pad(z, 2)), [iarr(rng, A23)], modes=("fwd",))
+    for mode, kw in (("edge", {}), ("reflect", {}), ("reflect", {"reflect_type": "odd"}), ("symmetric", {}), ("wrap", {}), ("mean", {}),
+                     ("mean", {"stat_length": 2}), ("linear_ramp", {}), ("linear_ramp", {"end_values": 3.0})):
+        # mean / linear_ramp divide: not exact in floating point, so the numeric oracle
+        add("pad", "mode=%s %s" % (mode, kw), (lambda m, z, mode=mode, kw=kw: m.pad(z, ((1, 2), (2, 1)), mode, **kw)), [iarr(rng, (3, 4))], [0],
+            mode not in ("mean", "linear_ramp"), modes=("fwd",))
     cond = onp.array([[True, False, True], [False, False, True]])
     lin("where", "arrays", (lambda m, a, b: m.where(cond, a, b)), [iarr(rng, A23), iarr(rng, A23)], (0, 1))
     lin("where", "broadcast-branch", (lambda m, a, b: m.where(cond, a, b)), [iarr(rng, (3,)), iarr(rng, (2, 1))], (0, 1))
@@ -500,7 +508,13 @@ def cases(rng, tier):
     add("linalg.svd", "singular values", (lambda m, a: m.linalg.svd(a, compute_uv=False)), [distinct(rng, (2, 3))], [0], False)
     for ordv, ax, sh in ((None, None, (4,)), (None, None, (2, 3)), (2, None, (4,)), ("fro", None, (2, 3)), (None, 0, (2, 3)),
                          (None, -1, (2, 3)), (2, 1, (2, 3)), (3, None, (4,)), ("nuc", None, (2, 3)), (None, (0, 1), (2, 3)),
-                         (1.5, 0, (3, 2))):
+                         (1.5, 0, (3, 2)),
+                         # matrix norms over every kind of axis pair of 3-D / 4-D input: increasing, reversed, adjacent, non-adjacent, negative
+                         ("nuc", (0, 1), (2, 3, 2)), ("nuc", (1, 2), (2, 3, 2)), ("nuc", (0, 2), (2, 3, 2)), ("nuc", (2, 0), (2, 3, 2)),
+                         ("nuc", (1, 0), (2, 3, 2)), ("nuc", (2, 1), (2, 3, 2)), ("nuc", (-1, 0), (2, 3, 2)), ("nuc", (-1, -3), (2, 3, 2)),
+                         ("nuc", (3, 1), (2, 3, 2, 3)), ("nuc", (2, 0), (2, 3, 2, 3)), ("nuc", (0, 3), (2, 3, 2, 3)),
+                         ("fro", (2, 0), (2, 3, 2)), ("fro", (1, 2), (2, 3, 2)), (None, (2, 0), (2, 3, 2)), (None, (3, 1), (2, 3, 2, 3)),
+                         (3, 1, (2, 3, 2)), (2.5, -1, (2, 3, 2)), (4, 0, (2, 3, 2)), (None, 2, (2, 3, 2))):
         add("linalg.norm", "ord=%s axis=%s shape=%s" % (ordv, ax, sh), (lambda m, a, ordv=ordv, ax=ax: m.linalg.norm(a, ordv, ax)), [distinct(rng, sh)], [0], False)
     # ---- fft (complex-linear: exact) ----
     for name, sh, kw in (("fft", (4,), {}), ("ifft", (4,), {}), ("fft", (2, 4), {"axis": 0}), ("fft2", (2, 4), {}),
@@ -562,6 +576,10 @@ def complex_cases(rng, tier):
     add("std", "complex", (lambda m, a: m.std(a, axis=0)), [gz], [0], False)
     add("linalg.norm", "complex vector", (lambda m, a: m.linalg.norm(a)), [gz[0]], [0], False)
     add("linalg.norm", "complex fro", (lambda m, a: m.linalg.norm(a, "fro")), [gz], [0], False)
+    for ordv, ax in ((3, None), (3, 0), (1.5, 1), (4, -1), (2, 0), (None, 1)):
+        add("linalg.norm", "complex ord=%s axis=%s" % (ordv, ax),
+            (lambda m, a, ordv=ordv, ax=ax: m.linalg.norm(a if ax is not None else a[0], ordv, ax)), [gz], [0], False)
+    add("linalg.norm", "complex nuc", (lambda m, a: m.linalg.norm(a, "nuc")), [gz], [0], False)
     add("fft.fft", "complex input", (lambda m, a: m.fft.fft(a)), [gz[0]], [0], True if False else False)
     add("fft.ifft", "complex input", (lambda m, a: m.fft.ifft(a)), [gz[0]], [0], False)
     # real -> complex -> real composite gets a real gradient equal to the purely real one
